@@ -226,10 +226,22 @@ func init() {
 				}
 			}
 		}
+		// the unrolling from the real initial state through antes and blinds (base case; also carries
+		// C01/C04/C06 assertions about the forced bets)
+		for n := 2; n <= 3; n++ {
+			for layout := 0; layout <= 2; layout++ {
+				if n == 2 && layout == 1 {
+					continue
+				}
+				for ante := 0; ante <= 1; ante++ {
+					js = append(js, sym.Job{Pkg: "", Harness: "Harness_C13", Args: []int{n, 0, layout, ante}})
+				}
+			}
+		}
 		return js
 	}
 	actBounds := func(tier string) []string {
-		b := []string{"wait points ReadyRequested (every street) + ReadyForAll, RoundClosed (every street) + Next incl. settlement and the closed hand, Start() on symbolic options; every dealer seat (quick: n=3 dealer 0,1)", "wait point: RoundStarted with seat cur to act, every street, every seat to act, every operation of {fold, check, call, allin, bet(x), raise(x), pass, pay(x)} by every seat", "state: every chip account, fold/acted flag, stake and raise size symbolic under Inv_act (I1, I2, turn-structure A/J, >=2 seats alive, >=1 with chips), amounts < 2^40; bet/raise/pay amount: every int64", "layouts: dealer/sb/bb, dead small blind, dealer-blind; limit no / pot"}
+		b := []string{"unrolling Start / ReadyForAll / PayAnte / PayBlinds from the real initial state with symbolic stakes and bankrolls (n=2,3, dealer at seat 0; all dealers in C13)", "wait points ReadyRequested (every street) + ReadyForAll, RoundClosed (every street) + Next incl. settlement and the closed hand, Start() on symbolic options; every dealer seat (quick: n=3 dealer 0,1)", "wait point: RoundStarted with seat cur to act, every street, every seat to act, every operation of {fold, check, call, allin, bet(x), raise(x), pass, pay(x)} by every seat", "state: every chip account, fold/acted flag, stake and raise size symbolic under Inv_act (I1, I2, turn-structure A/J, >=2 seats alive, >=1 with chips), amounts < 2^40; bet/raise/pay amount: every int64", "layouts: dealer/sb/bb, dead small blind, dealer-blind; limit no / pot"}
 		if tier == "thorough" {
 			return append(b, "n in 2..4 seats")
 		}
@@ -396,16 +408,21 @@ func init() {
 			for n := 2; n <= maxN; n++ {
 				for _, hole := range []int{2, 4} {
 					for sc := 0; sc < 4; sc++ {
-						js = append(js, sym.Job{Pkg: "", Harness: "Harness_C14_Hand", Args: []int{n, hole, sc}, Cfg: sym.JobConfig{Stubs: cut}})
+						for _, slack := range []int{0, 2} {
+							if slack == 0 && tier != "thorough" && sc != 0 && sc != 1 {
+								continue
+							}
+							js = append(js, sym.Job{Pkg: "", Harness: "Harness_C14_Hand", Args: []int{n, hole, sc, slack}, Cfg: sym.JobConfig{Stubs: cut}})
+						}
 					}
 				}
 			}
-			js = append(js, sym.Job{Pkg: "", Harness: "Harness_C14_Hand", Args: []int{2, 2, 0}, Cfg: sym.JobConfig{Stubs: cut, ShuffleSwaps: 1}})
+			js = append(js, sym.Job{Pkg: "", Harness: "Harness_C14_Hand", Args: []int{2, 2, 0, 2}, Cfg: sym.JobConfig{Stubs: cut, ShuffleSwaps: 1}})
 			js = append(js, sym.Job{Pkg: "", Harness: "Harness_C14_Shuffle", Args: []int{4}, Cfg: sym.JobConfig{ShuffleSwaps: 2}})
 			js = append(js, sym.Job{Pkg: "", Harness: "Harness_C14_Shuffle", Args: []int{6}, Cfg: sym.JobConfig{ShuffleSwaps: 1}})
 			if tier == "thorough" {
 				js = append(js, sym.Job{Pkg: "", Harness: "Harness_C14_Shuffle", Args: []int{4}, Cfg: sym.JobConfig{ShuffleSwaps: 3}})
-				js = append(js, sym.Job{Pkg: "", Harness: "Harness_C14_Hand", Args: []int{3, 2, 1}, Cfg: sym.JobConfig{Stubs: cut, ShuffleSwaps: 1}})
+				js = append(js, sym.Job{Pkg: "", Harness: "Harness_C14_Hand", Args: []int{3, 2, 1, 2}, Cfg: sym.JobConfig{Stubs: cut, ShuffleSwaps: 1}})
 			}
 			js = append(js, sym.Job{Pkg: "", Harness: "Harness_C14_Decks"})
 			// dealing steps from arbitrary closed-round states (burn/board from the top of the deck, hole cards untouched)
@@ -423,7 +440,7 @@ func init() {
 			if tier == "thorough" {
 				n = "2..6"
 			}
-			return []string{"whole hands on " + n + " seats, 2 hole cards and 4-with-2-required, deck of n*hole+10 opaque symbolic 2-byte cards (every content, duplicates included), four scripted histories: check/call to showdown, all-in run-out, everybody folds on the flop, fold before the flop; I6 asserted after every operation", "shuffle: rand.Shuffle modelled as k <= 2 (thorough 3) arbitrary in-range swaps on 4..6 symbolic cards; one-swap shuffle followed by a whole hand", "deck builders executed concretely", "dealing steps of Next() from arbitrary closed-round states (Harness_Next)"}
+			return []string{"whole hands on " + n + " seats, 2 hole cards and 4-with-2-required, decks of exactly n*hole+8 (exact fit) and n*hole+10 opaque symbolic 2-byte cards (every content, duplicates included), four scripted histories: check/call to showdown, all-in run-out, everybody folds on the flop, fold before the flop; I6 asserted after every operation", "shuffle: rand.Shuffle modelled as k <= 2 (thorough 3) arbitrary in-range swaps on 4..6 symbolic cards; one-swap shuffle followed by a whole hand", "deck builders executed concretely", "dealing steps of Next() from arbitrary closed-round states (Harness_Next)"}
 		},
 		Outside:     []string{"the quality of the permutation produced by math/rand (uniformity) and the real math/rand implementation", "hand evaluation is cut out of the whole-hand harness (UpdateCombinationOfAllPlayers replaced by a no-op; that it writes nothing but Combination is C10's obligation)", "decks shorter than the hand needs (Deal indexes past the end: outside the claim)", "amount-dependent histories beyond the four scripts (chips do not influence dealing; the step harness Harness_Next covers dealing from arbitrary chip states)"},
 		Assumptions: append([]string{"math/rand.Shuffle(n, swap) = a finite sequence of swap(i, j) calls with in-range i, j (its documented contract)"}, commonAssumptions...),
@@ -484,16 +501,34 @@ func init() {
 					}
 				}
 			}
+			// two consecutive operations: state kept outside the serialized state between calls
+			twoN, ops1, ops2 := 2, []int{1, 2, 3, 4, 5}, []int{2, 3, 4, 5}
+			streets := []int{1}
+			if tier == "thorough" {
+				twoN, ops1, ops2 = 3, []int{0, 1, 2, 3, 4, 5, 6}, []int{0, 1, 2, 3, 4, 5, 6}
+				streets = []int{0, 1, 3}
+			}
+			for n := 2; n <= twoN; n++ {
+				for _, street := range streets {
+					for cur := 0; cur < n; cur++ {
+						for _, o1 := range ops1 {
+							for _, o2 := range ops2 {
+								js = append(js, sym.Job{Pkg: "table", Harness: "Harness_C07_Two", Args: []int{n, street, cur, o1, o2}})
+							}
+						}
+					}
+				}
+			}
 			return js
 		},
 		AssertPrefix: []string{"C07."},
-		Covers:       func(tier string) []string { return []string{"C07.accepted", "C07.refused"} },
+		Covers:       func(tier string) []string { return []string{"C07.accepted", "C07.refused", "C07.two-accepted"} },
 		Bounds: func(tier string) []string {
 			n := "n=2 every street, n=3 preflop and river (seats 0,1 to act)"
 			if tier == "thorough" {
 				n = "n in 2..4, every street, every seat to act"
 			}
-			return []string{n, "wait points RoundStarted (every action incl. bet/raise/pay with |amount| < 2^42), ReadyRequested (ReadyForAll), RoundClosed (Next incl. dealing, evaluation on the concrete deck and settlement), plus operations in the wrong phase", "chip accounts, flags, stakes symbolic (< 2^40) as in the engine step harnesses; in-memory copy carries the unserialized Pot.Levels"}
+			return []string{n, "two consecutive betting actions (one in-memory object vs two backend hops): heads-up on the flop, first action in {check, call, allin, bet, raise}, second in {call, allin, bet, raise} (thorough: n<=3, preflop/flop/river, every action pair)", "wait points RoundStarted (every action incl. bet/raise/pay with |amount| < 2^42), ReadyRequested (ReadyForAll), RoundClosed (Next incl. dealing, evaluation on the concrete deck and settlement), plus operations in the wrong phase", "chip accounts, flags, stakes symbolic (< 2^40) as in the engine step harnesses; in-memory copy carries the unserialized Pot.Levels"}
 		},
 		Outside:     []string{"the reflection-based implementation of encoding/json itself (modelled by its documented contract from the current struct tags; validated by native replays, which run the real encoding/json)", "AnteRequested / BlindsRequested wait points (covered for the in-memory engine by C13; the backend wrappers have the same shape)", "the table layer above the backend (goroutines, timers)"},
 		Assumptions: append([]string{"encoding/json Marshal+Unmarshal = tag-driven structural clone (engine/sym/models_json.go)", "time.Now arbitrary; UpdatedAt excluded from the comparison as the statement says"}, commonAssumptions...),
